@@ -13,6 +13,7 @@ def wb_cfg(wb, form_name=None) -> dict:
     lists = []
     settings = {}
     entity = False
+    entlabel = False
     for s in wb["sheets"]:
         nm = s["name"].lower()
         hdr = [h.strip().lower() if isinstance(h, str) else h for h in s["header"]]
@@ -30,12 +31,16 @@ def wb_cfg(wb, form_name=None) -> dict:
                     settings[h] = canon_cell(c)
         elif nm == "entities":
             entity = any(any(canon_cell(c) is not None for c in r) for r in s["rows"])
+            if "label" in hdr and s["rows"]:
+                li = hdr.index("label")
+                entlabel = any(li < len(r) and canon_cell(r[li]) is not None for r in s["rows"])
     return {
         "lists": lists,
         "formname": settings.get("name") or form_name or "data",
         "omitid": settings.get("omit_instanceid") in YES,
         "iname": "instance_name" in settings,
         "entity": entity,
+        "entlabel": entlabel,
     }
 
 
